@@ -369,7 +369,7 @@ class Machine:
                 csize = max(pv)
             else: csize = size
             if csize > HEAP_SLOT * 8:
-                if self.win is None and not self.tolerant: raise Unsupported('allocation too large %d' % csize)
+                if not isinstance(size, Term) and g is True: raise Unsupported('allocation too large %d' % csize)
                 # inside a window pass the size may be garbage of a not-yet-executed path: flag it if it is real
                 self.oblige('huge-allocation', And(g, Cmp('ult', HEAP_SLOT * 8, size, 64)), 'allocation of more than %d bytes (%s)' % (HEAP_SLOT * 8, self.where()))
                 csize = max([v for v in (pv if isinstance(size, Term) else []) if v <= HEAP_SLOT * 8] or [16])
